@@ -43,6 +43,7 @@ pub fn run<A: Cx>(name: &str, seed: u64, scale: usize, stream: Option<&str>) -> 
         "c01x" => c01::run_exhaustive(&mut d),
         "c02" => c02::run(&mut d, scale, false),
         "c02all" => c02::run(&mut d, scale, true),
+        "c02alt" => c02::run_alt(&mut d),
         "c03" => c03::run(&mut d, scale),
         "c04" => c04::run(&mut d, scale, false),
         "c04all" => c04::run(&mut d, scale, true),
